@@ -97,7 +97,8 @@ fn host_limit(err: &str, tname: &str) -> Option<&'static str> {
 
 fn quota() -> DecoderConfig {
     let mut c = DecoderConfig::new();
-    c.set_decoding_quota(5_000_000);
+    // only a guard against runaway decodes (untyped decoding is charged 50x)
+    c.set_decoding_quota(2_000_000_000);
     c
 }
 
